@@ -159,11 +159,14 @@ func runInit(i *interpreter, p *ssa.Package) (errs string) {
 func (i *interpreter) initPackages() {
 	e := i.eng
 	e.initShared()
+	i.tolerant = true
 	for _, p := range e.Prog.AllPackages() {
 		if pkgListed(p, e.Opts.PathInit) {
 			if err := runInit(i, p); err != "" {
+				i.tolerant = false
 				i.run.abort("unsupported", "init of "+p.Pkg.Path()+": "+err)
 			}
 		}
 	}
+	i.tolerant = false
 }
